@@ -3,6 +3,8 @@ import PdshVerif.Pcp.Commute
 import PdshVerif.Pcp.Spec
 import PdshVerif.Pcp.Multi
 import PdshVerif.Pcp.SessionLemmas
+import PdshVerif.Pcp.PacedTree
+import PdshVerif.Pcp.Refused
 
 /-! # C11  pdcp/rpdcp reproduce the source tree exactly on every target
 
@@ -608,6 +610,164 @@ theorem session_without_error_is_run (so : SOpts) (co : COpts) (o : Opts) (fs : 
     sessionEnd so co o fs srcs = run o fs (send so srcs) := by
   unfold sessionEnd run
   rw [session_sync, session_clean so co o fs srcs hf]
+
+/-- **Round trip of the interactive protocol.**  Under the hypotheses of `copy_roundtrip` the DIALOGUE
+between the client (either form) and the receiver -- the client sends one record, reads one reply, goes
+on only if it is positive -- draws no negative reply (every record and the data of every file are answered
+by exactly one acknowledgement, `paced_tree`), the client has therefore sent exactly `send so srcs`, and
+the dialogue ends in the copied tree, with acknowledgements only. -/
+theorem session_roundtrip (o : Opts) (hc : CntOk o) (hnf : o.fsize = none) (so : SOpts) (co : COpts)
+    (hp : so.preserve = o.preserve) (fs : FS)
+    (D : Path) (srcs : List (Str × Tree)) (budget : Nat)
+    (hres : resolve fs o.cwd o.dest = some D) (hdir : fs.isDir D = true)
+    (hsrc : SrcsOk so srcs) (hb : o.dest.length + budget < PCP_PATH_MAX)
+    (hgood : GoodKids budget (namedSrcs so srcs))
+    (hfresh : ∀ n k, (n, k) ∈ namedSrcs so srcs → FreshBelow fs (D ++ [n])) :
+    (session so co o fs (expandAll srcs)).failed = false ∧
+    (session so co o fs (expandAll srcs)).sent = send so srcs ∧
+    (sessionEnd so co o fs srcs).fs = recvKids o so.subsec fs D (namedSrcs so srcs) ∧
+    ∀ r ∈ (sessionEnd so co o fs srcs).out, r = Reply.ack := by
+  have hv : VerifyOk o fs := fun _ => ⟨D, hres, hdir⟩
+  have h0 : enter o (St.init fs) o.dest =
+      { St.init fs with out := [.ack],
+                        stack := [{ targ := o.dest, targisdir := true, setimes := false, mt := default, atm := default }],
+                        phase := .start } := by
+    rw [enter_ok (p := D) hv hres hdir]
+    rfl
+  have hat : AtDir o (enter o (St.init fs) o.dest)
+      { targ := o.dest, targisdir := true, setimes := false, mt := default, atm := default } [] D := by
+    rw [h0]
+    exact ⟨rfl, rfl, rfl, hres, hdir, hv, ⟨usecOk_zero _, usecOk_zero _⟩⟩
+  have hfresh' : ∀ n k, (n, k) ∈ namedSrcs so srcs → FreshBelow (enter o (St.init fs) o.dest).fs (D ++ [n]) := by
+    rw [h0]; exact hfresh
+  have hpaced := paced_kids hc hnf so.subsec (namedSrcs so srcs) budget _ _ [] D hat (fun e => by cases e) hb hgood
+    hfresh'
+  rw [← hp, ← chunks_eq so srcs hsrc] at hpaced
+  have hf := session_paced so co o fs (expandAll srcs) (by rw [h0]) hpaced
+  have hrun := session_without_error_is_run so co o fs srcs hf
+  obtain ⟨c1, c2⟩ := copy_roundtrip o hc hnf so hp fs D srcs budget hres hdir hsrc hb hgood hfresh
+  refine ⟨hf, session_clean so co o fs srcs hf, ?_, ?_⟩
+  · rw [hrun]; exact c1
+  · rw [hrun]
+    intro r hr
+    exact c2 r (by simp only [sink]; exact List.mem_reverse.2 hr)
+
+/-- **A directory the target refuses costs exactly that subtree** (repaired client, `skipRefused`; the
+general form of `dirfail_scatter_witness`).  The first source is a directory whose name is taken by a regular
+file on the target; the other sources satisfy the hypotheses of `copy_roundtrip`.  The dialogue: the `D`
+record (after its `T` record with -p) draws ONE error record, the client skips the directory's list
+elements and its leave-directory sentinel, the receiver is still at the level it was (`refused_entries`),
+and every other source arrives exactly as in `copy_roundtrip` -- all further replies are acknowledgements,
+the file in the way is untouched (it is not below any name of `post`). -/
+theorem error_isolated_refused_dir (o : Opts) (hc : CntOk o) (hnf : o.fsize = none) (so : SOpts) (co : COpts)
+    (hco : co.skipRefused = true) (hp : so.preserve = o.preserve) (fs : FS) (D : Path)
+    (path : Str) (m t a : Nat) (kids : List (Str × Tree)) (post : List (Str × Tree)) (budget : Nat)
+    (hres : resolve fs o.cwd o.dest = some D) (hdir : fs.isDir D = true)
+    (hpath : path ≠ sentinelName ∨ so.sentinelFix = true)
+    (hname : GoodName (sentName so path true))
+    (hnlen : o.dest.length + (sentName so path true).length + 1 < PCP_PATH_MAX)
+    (ht : t < 2 ^ 63) (ha : a < 2 ^ 63)
+    {fm : Nat} {ft : Option Time} {fd : Str} (hblk : fs (D ++ [sentName so path true]) = some (.file fm ft fd))
+    (hsrc : SrcsOk so post) (hb : o.dest.length + budget < PCP_PATH_MAX)
+    (hgood : GoodKids budget (namedSrcs so post))
+    (hfresh : ∀ n k, (n, k) ∈ namedSrcs so post → FreshBelow fs (D ++ [n])) :
+    (sessionEnd so co o fs ((path, Tree.dir m t a kids) :: post)).fs = recvKids o so.subsec fs D (namedSrcs so post) ∧
+    (∃ rs, (sessionEnd so co o fs ((path, Tree.dir m t a kids) :: post)).out =
+        rs ++ (Reply.err .path :: ((if o.preserve then [Reply.ack] else []) ++ [Reply.ack])) ∧
+      ∀ r ∈ rs, r = Reply.ack) ∧
+    (sessionEnd so co o fs ((path, Tree.dir m t a kids) :: post)).phase = .done := by
+  have hv : VerifyOk o fs := fun _ => ⟨D, hres, hdir⟩
+  have h0 : enter o (St.init fs) o.dest =
+      { St.init fs with out := [.ack],
+                        stack := [{ targ := o.dest, targisdir := true, setimes := false, mt := default, atm := default }],
+                        phase := .start } := by
+    rw [enter_ok (p := D) hv hres hdir]
+    rfl
+  have hat : AtDir o (enter o (St.init fs) o.dest)
+      { targ := o.dest, targisdir := true, setimes := false, mt := default, atm := default } [] D := by
+    rw [h0]
+    exact ⟨rfl, rfl, rfl, hres, hdir, hv, ⟨usecOk_zero _, usecOk_zero _⟩⟩
+  have hfs0 : (enter o (St.init fs) o.dest).fs = fs := by rw [h0]; rfl
+  have hout0 : (enter o (St.init fs) o.dest).out = [.ack] := by rw [h0]
+  -- the greeting
+  have hr := read_ack (s := { st := enter o (St.init fs) o.dest, sent := [], consumed := 0, failed := false,
+                              skip := 0, dead := false }) (old := []) rfl hout0
+  have hi : InSync ({ st := enter o (St.init fs) o.dest, sent := [], consumed := 0 + 1, failed := false,
+                      skip := 0, dead := false } : Sess) := ⟨rfl, rfl, by simp [hout0]⟩
+  -- the optional `T` record and the refused `D` record
+  obtain ⟨f1, hat1, hpend1, hf1t, hfs1, hpT, hout1⟩ :=
+    after_optional_T (o := o) hat (fun e => by cases e) so.subsec t a ht ha
+  generalize hst1 : (if o.preserve then [timesRecord so.subsec t a] else []).flatten.foldl (step o)
+      (enter o (St.init fs) o.dest) = st1 at hat1 hfs1 hout1
+  have hD := feed_D_blocked (o := o) hat1.phase hat1.stack hat1.isdir hat1.res hat1.dir hname
+    (by rw [hfs1, hfs0]; exact hblk) (by rw [hf1t]; exact hnlen) m
+  have hcond : ¬ (path = sentinelName && !(so.sentinelFix && true)) = true := by
+    rcases hpath with h | h
+    · simp [h]
+    · simp [h]
+  have hTeq : (if so.preserve then
+      [tRecord (t / USEC) (if so.subsec then t % USEC else 0) (a / USEC) (if so.subsec then a % USEC else 0)] else []) =
+      (if o.preserve then [timesRecord so.subsec t a] else []) := by
+    rw [hp]; rfl
+  obtain ⟨e1, e2, e3⟩ := refused_entries (o := o) so co hco hi path true m t a kids hcond
+    (by rw [hTeq]; exact hpT) .path (by
+      rw [hTeq]
+      show ((dRecord m (sentName so path true)).foldl (step o) _).out = _
+      rw [hst1, hD])
+  rw [hTeq] at e3
+  have e3' : ((expandTree path true (Tree.dir m t a kids)).foldl (clientStep so co o)
+      { st := enter o (St.init fs) o.dest, sent := [], consumed := 0 + 1, failed := false, skip := 0, dead := false }).st =
+      { st1 with out := .err .path :: st1.out, phase := .start } := by
+    rw [e3]
+    show (dRecord m (sentName so path true)).foldl (step o) _ = _
+    rw [hst1, hD]
+  generalize hs2 : (expandTree path true (Tree.dir m t a kids)).foldl (clientStep so co o)
+      { st := enter o (St.init fs) o.dest, sent := [], consumed := 0 + 1, failed := false, skip := 0, dead := false } = s2
+    at e1 e2 e3'
+  -- the receiver is where it was
+  have hat2 : AtDir o s2.st f1 [] D := by
+    rw [e3']
+    exact ⟨rfl, hat1.stack, hat1.isdir, hat1.res, hat1.dir, hat1.ver, hat1.us⟩
+  have hfs2 : s2.st.fs = fs := by rw [e3']; show st1.fs = fs; rw [hfs1, hfs0]
+  have hfresh2 : ∀ n k, (n, k) ∈ namedSrcs so post → FreshBelow s2.st.fs (D ++ [n]) := by
+    rw [hfs2]; exact hfresh
+  -- the other sources
+  have hpaced := paced_kids hc hnf so.subsec (namedSrcs so post) budget s2.st f1 [] D hat2 hpend1
+    (by rw [hf1t]; exact hb) hgood hfresh2
+  have hfed := feed_kids hc so.subsec (namedSrcs so post) budget s2.st f1 [] D hat2 hpend1
+    (by rw [hf1t]; exact hb) hgood hfresh2
+  rw [← hp, ← chunks_eq so post hsrc] at hpaced
+  obtain ⟨i1, i2, i3⟩ := foldl_paced so co (expandAll post) e1 hpaced
+  rw [chunks_eq so post hsrc, kidsChunks_flatten, hp] at i3
+  rw [← i3] at hfed
+  -- the session
+  have hsess : (session so co o fs (expandAll ((path, Tree.dir m t a kids) :: post))).st =
+      ((expandAll post).foldl (clientStep so co o) s2).st := by
+    unfold session
+    dsimp only
+    rw [hr]
+    simp only [Bool.not_true, Bool.false_eq_true, if_false, expandAll, List.foldl_append]
+    rw [hs2]
+  unfold sessionEnd
+  rw [hsess]
+  generalize ((expandAll post).foldl (clientStep so co o) s2).st = st3 at hfed
+  obtain ⟨⟨f3, hat3, _, _⟩, hfs3, _, rs, hrs, hrsa⟩ := hfed
+  have hfin : finish o st3 = { st3 with stack := [], phase := .done } := by
+    unfold finish
+    simp only [hat3.phase]
+    unfold leave
+    simp only [hat3.stack]
+    rfl
+  rw [hfin]
+  refine ⟨?_, ⟨rs, ?_, ?_⟩, rfl⟩
+  · show st3.fs = _
+    rw [hfs3, hfs2]
+  · show st3.out = _
+    rw [hrs, e3']
+    show rs ++ (Reply.err .path :: st1.out) = _
+    rw [hout1, hout0]
+  · rw [faultsKids_none o hnf] at hrsa
+    exact hrsa.all_ack
 
 /-- `/w/d` holds a regular FILE `t`: the directory `t` cannot be created -/
 def sfs : FS := fun p =>
